@@ -121,6 +121,10 @@ impl Iterator for SrcIter {
     }
 }
 
+// the default (empty) prefetch hooks
+impl fluent_fallback::generator::BundleIterator for SrcIter {}
+impl fluent_fallback::generator::BundleStream for SrcStream {}
+
 struct Gen(Rc<RefCell<Script>>);
 
 impl BundleGenerator for Gen {
@@ -368,8 +372,31 @@ fn run(payload: &str) -> String {
         let s = s.borrow();
         format!("#{}.{}", s.polls, s.pulls)
     };
+    let pf_waker = Arc::new(LogWaker { id: k, log: log.clone() });
     for piece in pieces {
         log.lock().unwrap().clear();
+        if piece == "pf" {
+            // Bundles::prefetch_sync / prefetch_async, driven to completion: forwards to the source's (default, empty)
+            // hook; must not generate a bundle, move the source, or wake anybody
+            if sync {
+                bundles.prefetch_sync();
+                outs.push(format!("pf{}!{}", counts(&script), dots(&log.lock().unwrap())));
+            } else {
+                let mut fut: Pin<Box<dyn Future<Output = ()> + '_>> = Box::pin(bundles.prefetch_async());
+                let waker = Waker::from(pf_waker.clone());
+                let mut cx = Context::from_waker(&waker);
+                let mut done = false;
+                for _ in 0..3 {
+                    if fut.as_mut().poll(&mut cx).is_ready() {
+                        done = true;
+                        break;
+                    }
+                }
+                drop(fut);
+                outs.push(format!("pf{}{}!{}", if done { "" } else { "-PENDING" }, counts(&script), dots(&log.lock().unwrap())));
+            }
+            continue;
+        }
         let o = match parse_op(k, piece) {
             None => "bad-op".to_string(),
             Some(Op::Start(c, d, api)) => {
